@@ -25,7 +25,11 @@ from lib import common as C
 ID = "C11"
 PROP_MODULES = ["GPVerif.Props.C11", "GPVerif.Props.C11Batch"]
 BUILD_TARGETS = ["GPVerif.Props.C11", "GPVerif.Props.C11Batch", "GPVerif.Gen.MTIndex", "GPVerif.Model.Proto"]
-RULE = ("index cells = (n, t <= 4 incl. n != t) x layout x batch shape in {(), (2,)} x index expression; expressions are "
+RULE = ("[wave 3: + batch shapes of rank 0..3 incl. size-1 dimensions and sizes coinciding with n / t / each other, Ellipsis at "
+        "every position of every expression, every prefix (batch-only), index tensors on batch dimensions; every tagged cell "
+        "also runs the WHOLE generated __getitem__ (B line: exact covariance tags); constructor plans executed by torch; argument "
+        "tensors updated in place] "
+        "index cells = (n, t <= 4 incl. n != t) x layout x batch shape in {(), (2,)} x index expression; expressions are "
         "built from ints in [-len-1, len], slices with start/stop in {None} u [-len-2, len+2] and step in "
         "{None,1,2,3,len+1,0,-1}, 1-d index tensors / python lists (negative entries, broadcasting, out-of-range), "
         "ellipsis / omitted-trailing-slice / bare presentations, batch ints / slices / tensors; int x int, and the "
@@ -34,6 +38,10 @@ RULE = ("index cells = (n, t <= 4 incl. n != t) x layout x batch shape in {(), (
         "the mean's shape and it is not the identity index")
 EXHAUSTIVE = False
 TRUSTED = ["translator harness/translate/g3_mtmvn_index.py (Python ast -> Lean index expressions)",
+           "hand-written Lean model of torch's reading of an index tuple, torch's gather semantics for ints / slices / 1-d index "
+           "tensors on a tensor of any rank, the batch-aware specification and the meaning of the covariance selections "
+           "(GPVerif/Model/MTBatch.lean), of range / permute / stack / cat / expand / block operators with a block dimension "
+           "(GPVerif/Model/MTCtor.lean): exercised against torch / linear_operator on every cell (exact tags)",
            "hand-written Lean model of Python slice.indices / torch integer + tensor indexing / meshgrid / broadcasting "
            "(GPVerif/Model/MTIndex.lean), exercised against torch on every cell",
            "modelled not verified: torch tensor indexing, linear_operator.__getitem__ / BlockInterleaved / BlockDiag / "
